@@ -1,6 +1,6 @@
 // vxrace runs several generations concurrently in one process through the generate commands' own option plumbing
 // (build with -race): `vxrace <moduleRoot> <spec> <kinds,comma-separated> <concurrent:true|false>`.
-// Target i is <moduleRoot>/t<i>. Data races are reported by the runtime on stderr; generation errors on stdout.
+// Target i is <moduleRoot>/t<i>; a kind written <kind>@<dir> generates with --template-dir <moduleRoot>/<dir>. Data races are reported by the runtime on stderr; generation errors on stdout.
 package main
 
 import (
@@ -27,6 +27,10 @@ func main() {
 	start := make(chan struct{})
 	run := func(i int, kind string) {
 		defer wg.Done()
+		if kind == "skip" {
+			<-start
+			return
+		}
 		defer func() {
 			if r := recover(); r != nil {
 				mu.Lock()
@@ -36,7 +40,15 @@ func main() {
 		}()
 		target := filepath.Join(root, fmt.Sprintf("t%d", i))
 		_ = os.MkdirAll(target, 0o755)
+		// "<kind>@<dir>": this generation uses <moduleRoot>/<dir> as its --template-dir
+		tpl := ""
+		if j := strings.Index(kind, "@"); j >= 0 {
+			kind, tpl = kind[:j], kind[j+1:]
+		}
 		args := []string{"-f", spec, "-t", target}
+		if tpl != "" {
+			args = append(args, "--template-dir", filepath.Join(root, tpl), "--allow-template-override")
+		}
 		if kind != "model" {
 			args = append(args, "-A", "race")
 		}
